@@ -222,6 +222,7 @@ type c20outcome struct {
 	proof   []byte
 	logs    map[string][4][]string // group id -> meta heads, meta entries, msg heads, msg entries
 	state   map[string]string
+	lost    string // an exported group the restored node cannot find by its key (what ActivateGroup needs)
 }
 
 func c20sorted(es []ipfslog.Entry) []string {
@@ -304,6 +305,25 @@ func (w *c20world) restore(archive []byte, hasAccount bool, patience time.Durati
 	o.logs, o.state, err = w.logsOf(func(g *protocoltypes.Group) (*GroupContext, error) { return r.db.OpenGroup(ctx, g, nil) })
 	if err != nil {
 		o.class, o.err = 1, fmt.Errorf("restored, but a group does not open: %w", err)
+		return o
+	}
+	// what a node does when it starts on the restored state: it rebuilds the group registry of its
+	// secret store from the account log (NewService -> reindexGroupDatastore); every exported group must
+	// then be found by its public key, which is all ActivateGroup has
+	if accGC, err := r.db.OpenGroup(ctx, r.accountGroup(), nil); err == nil {
+		if err := reindexGroupDatastore(ctx, r.ss, accGC.metadataStore); err != nil {
+			o.lost = "reindexGroupDatastore: " + err.Error()
+		}
+		for _, g := range w.groups {
+			if g.g.GroupType == protocoltypes.GroupType_GroupTypeAccount {
+				continue // derived from the account keys when the service starts, not looked up
+			}
+			pk, _ := g.g.GetPubKey()
+			got, err := r.ss.FetchGroupByPublicKey(ctx, pk)
+			if err != nil || !bytes.Equal(got.GetSecret(), g.g.GetSecret()) {
+				o.lost = fmt.Sprintf("group %s (%v) is in the archive but the restored node does not find it by its key: %v", g.name[:8], g.g.GroupType, err)
+			}
+		}
 	}
 	return o
 }
@@ -367,7 +387,11 @@ func c20history(t *testing.T, pctx context.Context, out *vharness.Out, rng *rand
 		seed := make([]byte, 32)
 		crand.Read(seed)
 		sc := &protocoltypes.ShareableContact{Pk: craw, PublicRendezvousSeed: seed, Metadata: []byte(fmt.Sprintf("m%d", i))}
-		choice := rng.Intn(5)
+		choice := rng.Intn(6)
+		forceBlocked := hi%3 == 1 && i == 0 // every third history has the one-to-one group of a blocked contact
+		if forceBlocked {
+			choice = 5
+		}
 		if i == nops-1 && len(w.groups) < 2 {
 			choice = 4 // every history has at least one joined group with messages next to the account group (whose message log is empty)
 		}
@@ -388,6 +412,40 @@ func c20history(t *testing.T, pctx context.Context, out *vharness.Out, rng *rand
 		case 3:
 			must(ms.ContactBlock(ctx, cpk))
 			desc = append(desc, "block")
+		case 5:
+			// a contact whose one-to-one group is opened and used, and who may then be blocked / unblocked
+			if len(w.groups) < 4 {
+				must(ms.ContactRequestIncomingReceived(ctx, sc))
+				must(ms.ContactRequestIncomingAccept(ctx, cpk))
+				g, err := a.ss.GetGroupForContact(cpk)
+				if err != nil {
+					t.Fatal(err)
+				}
+				gc, err := a.db.OpenGroup(ctx, g, nil)
+				if err != nil {
+					t.Fatal(err)
+				}
+				addGroup(g, gc)
+				must(gc.metadataStore.AddDeviceToGroup(ctx))
+				for k := 0; k < 1+rng.Intn(3); k++ {
+					must(gc.messageStore.AddMessage(ctx, []byte(fmt.Sprintf("to the contact %d", k))))
+				}
+				d := "contact-group"
+				bk := rng.Intn(3)
+				if forceBlocked {
+					bk = rng.Intn(2)
+				}
+				switch bk {
+				case 0:
+					must(ms.ContactBlock(ctx, cpk))
+					d += "+block"
+				case 1:
+					must(ms.ContactBlock(ctx, cpk))
+					must(ms.ContactUnblock(ctx, cpk))
+					d += "+block+unblock"
+				}
+				desc = append(desc, d)
+			}
 		case 4:
 			if len(w.groups) < 3 {
 				g, _, _ := NewGroupMultiMember()
@@ -659,7 +717,7 @@ func c20history(t *testing.T, pctx context.Context, out *vharness.Out, rng *rand
 		o := w.restore(c20write(m.files), m.account, m.wait)
 		ok, note := true, ""
 		same := o.class == 0 && bytes.Equal(o.account, accKey) && bytes.Equal(o.proof, proofKey) &&
-			fmt.Sprint(o.logs) == fmt.Sprint(wantLogs) && fmt.Sprint(o.state) == fmt.Sprint(wantState)
+			fmt.Sprint(o.logs) == fmt.Sprint(wantLogs) && fmt.Sprint(o.state) == fmt.Sprint(wantState) && o.lost == ""
 		what := []string{"restored", "rejected", "did not complete"}[o.class]
 		switch m.expect {
 		case "same":
@@ -672,6 +730,8 @@ func c20history(t *testing.T, pctx context.Context, out *vharness.Out, rng *rand
 						note += " with another account identity"
 					case fmt.Sprint(o.logs) != fmt.Sprint(wantLogs):
 						note += " with other log entries or heads"
+					case o.lost != "":
+						note += ", but " + o.lost
 					default:
 						note += " with a different derived group state"
 					}
